@@ -593,6 +593,29 @@ func (f *FuncCFG) evalCond(e ast.Expr, assume map[string]bool) (bool, bool) {
 					return val, true
 				}
 			}
+		} else if cs := f.calleeSym(x); cs != "" {
+			// a predicate over named constants (`ic.IsHardforkEnabled(config.HFFaun)`): key "callee(const,...)"
+			var names []string
+			for _, a := range x.Args {
+				var o types.Object
+				switch y := ast.Unparen(a).(type) {
+				case *ast.Ident:
+					o = f.Info.ObjectOf(y)
+				case *ast.SelectorExpr:
+					o = f.Info.ObjectOf(y.Sel)
+				}
+				if cst, ok := o.(*types.Const); ok {
+					names = append(names, symOf(cst))
+				} else {
+					names = nil
+					break
+				}
+			}
+			if names != nil {
+				if val, ok := assume[cs+"("+strings.Join(names, ",")+")"]; ok {
+					return val, true
+				}
+			}
 		}
 	}
 	return false, false
